@@ -385,6 +385,18 @@ impl HistGen {
                             b.push(BOp::Delete(self.pred(rng, cfg.groups, true)));
                         }
                     }
+                    // a batch straddling a memory-budget cut: one oversized document followed by
+                    // more operations of the same batch (the segment is cut at a group boundary,
+                    // never inside a batch)
+                    if w[11] > 0 && rng.chance(1, 4) {
+                        let mut d = self.doc(rng, cfg.groups);
+                        d.pad = CUTTER_PAD;
+                        let at = rng.urange(0, b.len());
+                        b.insert(at, BOp::Add(d));
+                        for _ in 0..rng.urange(1, 3) {
+                            b.push(BOp::Add(self.doc(rng, cfg.groups)));
+                        }
+                    }
                     ops.push(Op::Batch(b));
                 }
                 4 => ops.push(Op::DeleteAll),
